@@ -183,20 +183,28 @@ def oracle(run, cfg, idnt, calls, p0, fixed):
 
 def unsuccessful_cases(run):
     """too few points in a single pass and in a later pass"""
-    for rt, rx in [("absolute", [5e-6, 5.00001e-6]),
-                   ("relative cp", [1e-3, 2e-3]),
-                   ("absolute", [-1.99e-6, -1.97e-6])]:
+    # (the last two: an approach part of four points -- already the first
+    # pass, over the whole segment, has too few points)
+    for rt, rx, n_app in [("absolute", [5e-6, 5.00001e-6], 100),
+                          ("relative cp", [1e-3, 2e-3], 100),
+                          ("absolute", [-1.99e-6, -1.97e-6], 100),
+                          ("absolute", [0, 0], 4),
+                          ("relative cp", [-1e-6, 1e-6], 4)]:
         cols = fits.model_curve("hertz_para", fits.default_params(
-            "hertz_para", contact_point=1e-7), n_app=100, n_ret=50)
+            "hertz_para", contact_point=1e-7), n_app=n_app, n_ret=50)
         idnt = curves.make_indentation(cols)
         cfg = {"model_key": "hertz_para", "range_type": rt, "range_x": rx,
-               "unsuccessful": True}
+               "unsuccessful": True, "n_app": n_app}
         try:
             idnt.fit_model(model_key="hertz_para", range_type=rt, range_x=rx)
         except BaseException as e:
-            run.failing(SITE, "unsuccessful:" + rt + str(rx),
-                        f"too few points raised {type(e).__name__}",
-                        payload={"kind": "unsuccessful", "cfg": cfg})
+            run.failing(SITE, "unsuccessful:" + rt + str(rx)
+                        + ("" if n_app == 100 else f":{n_app}-points"),
+                        f"too few points ({rt} {rx}, approach part of "
+                        f"{n_app} points) raised {type(e).__name__}: {e} "
+                        "instead of leaving an unsuccessful fit",
+                        payload={"kind": "unsuccessful", "cfg": cfg},
+                        theorem="C04_outcome_is_last_pass")
             continue
         run.case(cfg, kind="unsuccessful")
         fp = idnt.fit_properties
@@ -583,8 +591,10 @@ def check(run):
     outcome_model_cases(run)
     for kf in run.known:
         if kf.get("status") == "fixed":
+            m_ = kf.get("match", {})
+            keys = set(m_.get("keys") or [m_.get("key")])
             run.fixed_must_pass(kf["id"], not any(
-                v["site"] == SITE and "unsuccessful" in str(v["key"])
+                v["site"] == SITE and str(v["key"]) in keys
                 for v in run.violations))
     run.extra["coq_relations_checked"] = len(exprs)
     run.rule = ("synthetic curves from the five shipped models x segment x "
